@@ -40,6 +40,12 @@ package vm
 //@ ensures[C14.load.own] !old(haskey(vm.loadedCode, cc)) && uf("code.root", *compiler.Code, cc) != cc && old(vm.loadedCode[uf("code.root", *compiler.Code, cc)]) != nil ==> result != nil && same(result.Globals, old(vm.loadedCode[uf("code.root", *compiler.Code, cc)].Globals))
 //@ ensures result != nil && haskey(vm.loadedCode, cc) && vm.loadedCode[cc] == result
 
+// Frame of (*frame).ActivateFunction (assumed): it writes fields of the frame and elements of object slices (the
+// frame's local variables), nothing of a vm.code object.
+//@ func (*frame).ActivateFunction
+//@ trusted
+//@ modcomps H_vm_frame_ E_object_Object
+
 // activateFunction runs a function on the code object loadCode answers for the function's own code: the cached one, or
 // one bound to the globals of the function's root code.
 //@ func (*VirtualMachine).activateFunction
